@@ -386,6 +386,7 @@ def disp_interpreted(program, grp, s):
                 return decoder_name(d)
         return decoder_name(grp.fallback) if grp.fallback else None
     n = 0
+    diffs = {}
     for a in assigns:
         # overlapping match fields: the later assignment wins in compose(); read the fields back from the payload
         raw = compose(a)
@@ -432,7 +433,11 @@ def disp_interpreted(program, grp, s):
         if not okv:
             desc = ', '.join(f"bits {o}..{o + ln - 1} = {v}" for (o, ln), v in sorted(vals.items()))
             gd = (r.attrs.get('called') if isinstance(r, A.AObj) else repr(r))
-            return ('diff', f"payload with {desc}: database selects {want}, the dispatcher selects {gd}")
+            if isinstance(r, A.AObj) and r.attrs.get('called') == want:
+                gd = f"{gd} (not called once with the payload)"
+            diffs.setdefault((want, gd), f"payload with {desc}: database selects {want}, the dispatcher selects {gd}")
+    if diffs:
+        return ('diff', next(iter(diffs.values())), diffs)
     return ('equal', n)
 
 def disp_semantic(program, grp, s):
@@ -607,6 +612,7 @@ def _disp_semantic_table(program, grp, s):
         def __contains__(self, k): return isinstance(k, str) and k.startswith('decode_pgn_')
         def __getitem__(self, k): return FN(k)
     n = 0
+    diffs = {}
     for raw in payloads:
         vals = field_vals(raw)
         def calls(evf, t, raw=raw):
@@ -640,8 +646,17 @@ def _disp_semantic_table(program, grp, s):
         if not okv:
             desc = ', '.join(f"bits {o}..{o + ln - 1} = {v}" for (o, ln), v in sorted(vals.items()))
             gd = got[1] if isinstance(got, tuple) and got and got[0] == 'CALLED' else got
-            return ('diff', f"payload with {desc}: database selects {want}, the dispatcher selects {gd}")
+            if gd == want:
+                gd = f"{gd} (with another argument than the payload)"
+            diffs.setdefault((want, str(gd)), f"payload with {desc}: database selects {want}, the dispatcher selects {gd}")
+    if diffs:
+        return ('diff', next(iter(diffs.values())), diffs)
     return ('equal', n)
+
+def _emit_disp_diffs(chk, rule, fname, line, sem):
+    for (want, got), desc in sorted(sem[2].items(), key=lambda kv: (str(kv[0][0]), str(kv[0][1]))):
+        chk.violation(rule, f"{fname}::selects::{got}::where-the-database-selects::{want}", file=PG, line=line, func=fname,
+                      expected=f"{want} (the database's first-match rule)", found=str(got), detail='witness: ' + desc)
 
 class _Pending:
     """collects the structural obligations of one dispatcher so that they can be dropped when the decision table proves the dispatcher right"""
@@ -677,7 +692,7 @@ def disp(chk, program, rule='DISP'):
                 chk.ok(rule, f"{fname}::decision-table", file=PG, line=s['line'], func=fname, detail=f"{sem[1]} payloads select the database's definition (dispatcher interpreted)")
                 narms += len(exp_arms)
             elif sem[0] == 'diff':
-                chk.violation(rule, f"{fname}::decision-table", file=PG, line=s['line'], func=fname, expected="the database's first-match rule", found=sem[1])
+                _emit_disp_diffs(chk, rule, fname, s['line'], sem)
             else:
                 chk.unknown(rule, fname, s['unsupported'] + ' / ' + sem[1], PG, s['line'])
             continue
@@ -748,10 +763,12 @@ def disp(chk, program, rule='DISP'):
             chk.ok(rule, f"{fname}::decision-table", file=PG, line=s['line'], func=fname, detail=f"{sem[1]} payload classes select the database's definition (another spelling of the same dispatcher)")
             narms += max(0, len(exp_arms) - min(len(arms), len(exp_arms)))      # arms the table covered although the structural reading did not see them
         elif sem[0] == 'diff':
+            # reported by what goes wrong, not by where the spelling differs: one finding per (definition the database selects, what the
+            # dispatcher selects instead), the same whatever shape the dispatcher has
             for okk, r_, inst_, kw in pend.items:
-                if not okk:
-                    kw = dict(kw); kw['detail'] = (kw.get('detail', '') + ' | witness: ' + sem[1]).strip(' |')
-                (chk.ok if okk else chk.violation)(r_, inst_, **kw)
+                if okk:
+                    chk.ok(r_, inst_, **kw)
+            _emit_disp_diffs(chk, rule, fname, s['line'], sem)
         else:
             for okk, r_, inst_, kw in pend.items:
                 if okk:
